@@ -968,6 +968,16 @@ PropHolds(s) ==
                                               \*  recognised by its id and dropped, see RelAwait)
     ]
 
+\* the antecedents of the implications above (vacuity guard: each must be reachable, tools/selftest.py)
+PropAntecedent(s) ==
+    [ RuntimeAfterRegistrations |-> ProcAlive(s, RtProc(s.gen)) /\ \E a \in Agents(s) : s.ag[a].kind = "ext" /\ s.ag[a].gen = s.gen,
+      NoEventBeforeAllNext |-> s.pcV.pc = "v3" /\ s.renderer = "invoke" /\ Agents(s) # {},
+      DoneOnlyAfterAll |-> s.pcV.pc = "ok" /\ Subscribed(s, "INVOKE") # {},
+      NoGhostInvoke |-> s.pcV.pc # "off",
+      StreamOwnerIsReserver |-> s.srv.stream,
+      OkHasBody |-> \E k \in DOMAIN s.iv : s.iv[k].m = "ret" /\ s.iv[k].out = "",
+      ResetIsFresh |-> IdleAfterReset(s) ]
+
 PropViolations(s) == {n \in DOMAIN PropHolds(s) : ~PropHolds(s)[n]}
 
 =============================================================================
